@@ -1,0 +1,57 @@
+//go:build verif
+// +build verif
+
+package transport
+
+import (
+	"net"
+	"sync/atomic"
+
+	"github.com/TarsCloud/TarsGo/tars/util/gpool"
+)
+
+// Verification hooks (build tag verif only): run the real receive loops over a caller-supplied
+// net.Conn and expose read-only views of unexported counters. No behaviour of the package changes.
+
+// VerifServerRecv runs the real tcpHandler.recv loop of a server built from protocol and config over conn
+// and returns when the loop returns (the connection has then been closed by the loop).
+func VerifServerRecv(protocol ServerProtocol, config *TarsServerConf, conn net.Conn) {
+	ts := NewTarsServer(protocol, config)
+	h := &tcpHandler{config: config, server: ts}
+	if config.MaxInvoke > 0 {
+		h.pool = gpool.NewPool(int(config.MaxInvoke), config.QueueCap)
+		defer h.pool.Release()
+	}
+	h.recv(&connInfo{conn: conn})
+}
+
+// VerifClientRecv runs the real connection.recv loop of a client built from protocol and config over conn.
+// It returns true when the loop marked the connection closed.
+func VerifClientRecv(protocol ClientProtocol, config *TarsClientConf, conn net.Conn) bool {
+	tc := NewTarsClient("verif", protocol, config)
+	tc.conn.isClosed = false
+	tc.conn.conn = conn
+	done := make(chan bool, 1)
+	tc.conn.recv(conn, done)
+	<-done
+	return tc.conn.isClosed
+}
+
+// VerifClientState reports (isClosed, invokeNum, len(sendQueue), len(sendFailQueue)) of a client.
+func VerifClientState(tc *TarsClient) (bool, int32, int, int) {
+	tc.conn.connLock.Lock()
+	defer tc.conn.connLock.Unlock()
+	return tc.conn.isClosed, atomic.LoadInt32(&tc.conn.invokeNum), len(tc.sendQueue), len(tc.sendFailQueue)
+}
+
+// VerifServerConnInvokes returns, per connection key, numInvoke of a TCP server.
+func VerifServerConnInvokes(ts *TarsServer) map[string]int32 {
+	out := map[string]int32{}
+	if h, ok := ts.handle.(*tcpHandler); ok {
+		h.conns.Range(func(k, v interface{}) bool {
+			out[k.(string)] = atomic.LoadInt32(&v.(*connInfo).numInvoke)
+			return true
+		})
+	}
+	return out
+}
